@@ -353,11 +353,13 @@ impl RrdpArchive {
     #[verifier::external_body]
     fn try_open(path: Arc<PathBuf>) -> (r: Result<Option<RrdpArchive>, RunFailed>)
         ensures r matches Ok(Some(a)) ==> a.path_spec() == *path,
+                r is Err ==> local_archive_fault(*path),
     { unimplemented!() }
     #[verifier::external_body]
     fn load_state(&self) -> (r: Result<RepositoryState, RunFailed>)
         // archive invariant: the stored record describes the stored content
         ensures r matches Ok(s) ==> s == self.state() && serial_reached(self.objects(), s.session, s.serial),
+                r is Err ==> local_archive_fault(self.path_spec()),
     { unimplemented!() }
 }
 
@@ -386,6 +388,10 @@ impl<'a> RepositoryUpdate<'a> {
             final(self).collector == old(self).collector, final(self).path == old(self).path,
             final(self).rpki_notify == old(self).rpki_notify,
             r matches Ok(true) ==> snapshot_installed(*old(self).path, notify.content.session_spec(), notify.content.serial_spec()),
+            // by reading (base.rs snapshot_update: `SnapshotError::RunFailed(err) => Err(err)`, every other
+            // SnapshotError => Ok(false); temp file / remove / rename failures are fatal): with the contract
+            // PROVED for SnapshotUpdate::try_update an Err comes from a local file fault only
+            r is Err ==> exists|p: PathBuf| #[trigger] local_archive_fault(p),
     { unimplemented!() }
 }
 
